@@ -6,14 +6,25 @@ from analysis.facts import norm_path
 from analysis.sym import sym, show_in, nosite, peel, core, walk, ret_values, args_of, guards_at, atoms_at, \
     variant_facts_at, cmp_facts_at, init_value, edge_guards, symbolizer, simplify, loop_source, defs_of, var_defs, agg_field
 from analysis.pat import match, Call, Cap, ANY, Pred, Const, has, chain_names
-from rules.common import closure_of, closures_in
+from rules.common import closure_of, closures_in, state_locals, local_defs, V
 from rules import pipe
 
 T = 'tokenization::'
 
 
+R = {}
+
+
 def _var(name):
-    return Pred(lambda t: t[0] == 'var' and t[1] == name)
+    """role based (never the debug name): R maps a role to the local chosen by type / structure"""
+    return Pred(lambda t: isinstance(t, tuple) and t and t[0] == 'var' and len(t) > 2 and R.get(name) == t[2])
+
+
+def _one(b, ty, what):
+    c = state_locals(b, ty)
+    if len(c) != 1:
+        raise AnchorMissing('%s (mutable local of type %s): found %d' % (what, ty, len(c)))
+    return c[0]
 
 
 def N(b, name):
@@ -63,6 +74,10 @@ def r1(ctx):
       'statistics and records pair.merge() under the loop index merge_idx in 0..num_merges, in this order')
 def r2(ctx):
     b = ctx.body(T + 'train_bpe')
+    R.clear()
+    R['merge_ops'] = _one(b, r'^std::collections::HashMap<std::vec::Vec<u8>, u32>$', 'merge table')
+    R['vocab'] = _one(b, r'^std::vec::Vec<\(std::vec::Vec<std::vec::Vec<u8>>, usize\)>$', 'word vocabulary')
+    R['stats'] = _one(b, r'^std::collections::HashMap<tokenization::BytePair, tokenization::BytePairInfo>$', 'pair statistics')
     ins = [t for t in b.calls(r'HashMap::insert$') if match(core(sym(b, t.args[0])), _var('merge_ops'))]
     if len(ins) != 1:
         raise AnchorMissing('merge_ops.insert(..) in train_bpe (found %d)' % len(ins))
@@ -89,7 +104,7 @@ def r2(ctx):
     src = core(loop_source(b, nx[0])) if nx else ()
     idx = ('unwrap', nosite(sym(b, nx[0].dest))) if nx else None
     ok = match(k, Call('BytePair::merge', isp)) and idx is not None and nosite(v) == nosite(core(idx)) and \
-        has(src, ('agg', 'adt', Pred(lambda n: n.endswith('Range::Range')), (Const(0), N(b, 'num_merges'))))
+        has(src, ('agg', 'adt', Pred(lambda n: n.endswith('Range::Range')), (Const(0), Call('saturating_sub', Call('saturating_sub', ('arg', 2, ANY), Const(256)), ('arg', 3, ANY)))))
     ctx.require(ok, b, 'record', 'merge_ops.insert(pair.merge(), merge_idx) with merge_idx iterating 0..num_merges',
                 'insert(%s, %s) over %s' % (show_in(b, k), show_in(b, v), show_in(b, src)))
     # exits: range exhausted, None selection, or error of update_stats
@@ -118,7 +133,7 @@ def r2(ctx):
       'num_merges = vocab_size - 256 - num_special_tokens (saturating): the same 256 byte ids as the tokenizer')
 def r3(ctx):
     b = ctx.body(T + 'train_bpe')
-    nm = [core(v) for site, v in var_defs(b, 'num_merges')]
+    nm = [core(sym(b, t.dest)) for t in b.calls(r'saturating_sub$') if match(core(sym(b, t.dest)), Call('saturating_sub', Call('saturating_sub', ANY, ANY), ANY))]
     ok = len(nm) == 1 and match(nm[0], Call('saturating_sub', Call('saturating_sub', ('arg', 2, ANY), Const(256)), ('arg', 3, ANY)))
     ctx.require(ok, b, 'num-merges', 'num_merges = vocab_size.saturating_sub(256).saturating_sub(num_special_tokens)', 'num_merges = %s' % [show_in(b, x) for x in nm])
 
@@ -190,7 +205,10 @@ def r5(ctx):
         got[(word, kind)] = (s, atoms)
     need = {('old', 'prev'), ('old', 'next'), ('new', 'prev'), ('new', 'next')}
     ctx.require(set(got) == need, b, 'pairs', 'prev/next pairs for the old and the new word', 'pairs found: %s' % sorted(got))
-    i = _var('i')
+    cnt = [l for l in state_locals(b, r'^usize$') if any(core(v)[0] == 'const' and core(v)[2] == 0 for _, v in local_defs(b, l))]
+    if len(cnt) != 1:
+        raise AnchorMissing('position counter of update_stats (found %d)' % len(cnt))
+    i = V(cnt[0])
     for key, (s, atoms) in got.items():
         word, kind = key
         if kind == 'prev':
